@@ -45,8 +45,14 @@ func Path(v ssa.Value) string {
 		}
 		return "alloc"
 	case *ssa.FieldAddr:
+		if isGroupField(x.X.Type(), x.Field) {
+			return Path(FieldOwner(x)) // the grouping struct itself reads as its owner
+		}
 		return Path(FieldOwner(x)) + "." + FieldName(x.X.Type(), x.Field)
 	case *ssa.Field:
+		if isGroupField(x.X.Type(), x.Field) {
+			return Path(FieldOwner(x))
+		}
 		return Path(FieldOwner(x)) + "." + FieldName(x.X.Type(), x.Field)
 	case *ssa.IndexAddr:
 		if k, ok := x.Index.(*ssa.Const); ok && k.Value != nil {
@@ -224,6 +230,19 @@ func fieldLoadSource(fa *ssa.FieldAddr, u *ssa.UnOp) ssa.Value {
 		return stores[0].Val
 	}
 	return nil
+}
+
+// isGroupField: field i of struct type t (or pointer to it) is a grouping struct whose fields count as fields of t.
+func isGroupField(t types.Type, i int) bool {
+	if pt, ok := t.Underlying().(*types.Pointer); ok {
+		t = pt.Elem()
+	}
+	st, ok := t.Underlying().(*types.Struct)
+	if !ok || i >= st.NumFields() || !transparentStruct(st.Field(i).Type()) {
+		return false
+	}
+	_, mapped := nestedOwner[rawTypeName(st.Field(i).Type())]
+	return mapped
 }
 
 // Resolve looks through wrappers and single-store local loads.
